@@ -529,6 +529,54 @@ theorem mac_equivalent_secrets_accept (cfg : Cfg α) (d : Digest) (s0 s : Bytes)
   rw [h]
   exact checkHash_sign_of_no_us cfg { secret := s, digest := d } key p hus
 
+/-! ### the configured secret is ONE secret, as a whole -/
+
+/-- a verifier that holds exactly one secret is `check_sign` -/
+theorem checkHashAny_singleton (cfg : Cfg α) (s : Signer) (key value : Bytes) :
+    checkHashAny cfg [s.secret] s.digest key value = checkHash cfg s key value := by
+  unfold checkHashAny checkHash
+  cases splitFirst us value with
+  | none => rfl
+  | some hp =>
+    obtain ⟨hdr, payload⟩ := hp
+    have hsd : signAndDigest { secret := [], digest := s.digest } hdr = signAndDigest s hdr := rfl
+    simp only [hsd]
+    cases signAndDigest s hdr with
+    | none => rfl
+    | some sd =>
+      obtain ⟨sig, d⟩ := sd
+      by_cases hm : cfg.mac d s.secret (key ++ payload) = sig <;> simp [genSign, hm]
+
+/-- **why the configured text must not be taken apart**: a verifier that tries several secrets (the parts of `new,old`)
+accepts every blob written under ANY of them, for every MAC — a cache configured with `alpha,beta` would accept what caches
+configured with the different secrets `alpha` or `beta` wrote, and `s3cr3t,` would be the secret `s3cr3t`.  "Written with a
+different secret" is a statement about the configured text as a whole (`EncInjective` of the secret conversion: `alpha,beta`,
+`alpha` and `beta` are three texts and must stay three keys). -/
+theorem any_secret_verifier_accepts_foreign_secret (cfg : Cfg α) (secrets : List Bytes) (d : Digest) (s0 : Bytes)
+    (hmem : s0 ∈ secrets) (key p : Bytes) (hus : us ∉ cfg.mac d s0 (key ++ p)) :
+    checkHashAny cfg secrets d key (hashSign cfg { secret := s0, digest := d } key p) = .ok p := by
+  have hsplit : splitFirst us (hashSign cfg { secret := s0, digest := d } key p)
+      = some (d.label ++ colon :: genSign cfg { secret := s0, digest := d } d key p, p) := by
+    have : hashSign cfg { secret := s0, digest := d } key p
+        = (d.label ++ colon :: genSign cfg { secret := s0, digest := d } d key p) ++ us :: p := by simp [hashSign]
+    rw [this]
+    apply splitFirst_append
+    intro m
+    rcases List.mem_append.mp m with m | m
+    · exact label_no_us _ m
+    · rcases List.mem_cons.mp m with e | m
+      · revert e; decide
+      · exact hus m
+  unfold checkHashAny
+  simp only [hsplit, signAndDigest_label]
+  have : (secrets.any fun s => genSign cfg { secret := s, digest := d } d key p = genSign cfg { secret := s0, digest := d } d key p) = true := by
+    apply List.any_eq_true.mpr
+    exact ⟨s0, hmem, by simp⟩
+  simp [this]
+
+/-- the model's conversion never takes the text apart: the secret of a `str` IS its bytes, `,` `;` `:` `|` and blanks included -/
+theorem toBytes_str_whole (u : Bytes) : toBytes (.str u) = some u := rfl
+
 /-! ### transactions × signed storage: the overlay never holds a stored form -/
 
 /-- **A raw write inside a transaction is read back through the signature check**, inside the transaction: `set_raw` goes to
@@ -657,5 +705,12 @@ example : stripZeros [0x6b] = stripZeros [0x6b, 0, 0] := by decide
 example : MacInjectiveUpTo (fun _ => stripZeros) (fun d s m => pairMac d (stripZeros s) m) .md5 := by
   intro s s' m m' h
   exact pairMac_injective .md5 _ _ _ _ h
+
+-- the text `a,b` (0x61 0x2c 0x62) is one secret: a blob written under the secret `a` is unsafe for its reader …
+example : decode { toyCfg with signer := some { secret := [0x61, 0x2c, 0x62], digest := .md5 } } toyReg [0x6b]
+    (.bytes (hashSign toyCfg { secret := [0x61], digest := .md5 } [0x6b] [0x80, 7])) false = .unsecure := by decide
+-- … whereas a verifier trying the parts `a` and `b` accepts it
+example : checkHashAny toyCfg [[0x61], [0x62]] .md5 [0x6b] (hashSign toyCfg { secret := [0x61], digest := .md5 } [0x6b] [0x80, 7])
+    = .ok [0x80, 7] := by decide
 
 end CashewsVerif.Props.C10
